@@ -141,7 +141,12 @@ PtCfgItem(mac, site) ==
     CASE site = 1 -> [tag EXCEPT !.attrs = <<A("cfg", "not(feature = \"zz\")")>> \o @]
       [] site = 2 -> [tag EXCEPT !.members[hix] = [@ EXCEPT !.attrs = <<A("cfg", "all()")>> \o @]]
       [] OTHER    -> [tag EXCEPT !.members[hix + 1] = [@ EXCEPT !.attrs = <<A("cfg", "not(test)"), A("inline", "")>>]]
-PtFamily == {PtCfgItem(mac, site) : mac \in {"contract", "interface"}, site \in 1..3} \cup {PtModuleItem} \cup {PtAttrFirstItem(mac) : mac \in {"contract", "interface"}} \cup {PtLintItem(i) : i \in 1..4} \cup {PtIfacesItem(n) : n \in {2, 3, 5}} \cup {PtItem(mac, c) : mac \in {"contract", "interface", "entry_points"}, c \in [1..5 -> 0..PtChoices]}
+(* an interface with supertraits, a contract impl block with a where clause on `Self`: the header is re-emitted as written *)
+PtHeaderItem(i) ==
+    LET base == PtItem(IF i = 1 THEN "interface" ELSE "contract", [x \in 1..5 |-> 0]) IN
+    IF i = 1 THEN [base EXCEPT !.id = "PH1", !.self_ty = "Iface: Send + Sync"]
+    ELSE [base EXCEPT !.id = "PH2", !.wheres = <<[text |-> "u32: Copy", mentions |-> <<>>]>>]
+PtFamily == {PtHeaderItem(i) : i \in 1..2} \cup {PtCfgItem(mac, site) : mac \in {"contract", "interface"}, site \in 1..3} \cup {PtModuleItem} \cup {PtAttrFirstItem(mac) : mac \in {"contract", "interface"}} \cup {PtLintItem(i) : i \in 1..4} \cup {PtIfacesItem(n) : n \in {2, 3, 5}} \cup {PtItem(mac, c) : mac \in {"contract", "interface", "entry_points"}, c \in [1..5 -> 0..PtChoices]}
 
 (* ------------------------------------------------------------------ fw *)
 Marker(i) == A("doc", "= \"m" \o ToString(i) \o "\"")
